@@ -1,11 +1,16 @@
 #!/bin/bash
-# setup.sh — builds the Coq development, the extracted OCaml runner and the Rust harness,
+# setup.sh — builds the Coq development, the extracted OCaml runners and the Rust harness,
 # offline, from files on disk. Run once after a restore; checks rebuild incrementally.
 set -e
 cd "$(dirname "$0")"
 export CARGO_NET_OFFLINE=true
 mkdir -p cases replays evidence .locks
-( cd coq && coq_makefile -f _CoqProject -o Makefile > /dev/null && timeout 3000 make -j16 )
-./build_runner.sh
-( cd harness && cargo build --release --offline 2>&1 | tail -3 )
+python3 - <<'PY'
+import importlib.machinery, importlib.util
+l = importlib.machinery.SourceFileLoader('check', './check'); s = importlib.util.spec_from_loader('check', l); m = importlib.util.module_from_spec(s); l.exec_module(m)
+m.gen_coqproject()
+PY
+( cd coq && timeout 6000 make -j16 -k ) || echo "setup: some Coq files failed (their checks will report it)"
+./build_runner.sh || echo "setup: some runner failed to build"
+( cd harness && cargo build --release --offline 2>&1 | tail -3 ) || echo "setup: harness build failed"
 echo setup-ok
